@@ -15,7 +15,7 @@ DECIDING_MONITORS = ["C13.world.dtype", "C13.rules", "C13.add.dtype", "C13.scale
 PASSIVE_UNDER_TESTS = True
 RULE = ("histories over all supported dtypes (int16/32/64, float16/32/64, long double) on 1D and 2D histograms: construct (with / "
         "without weights, explicit dtype), fill / fill_n with int or float weights, + / - / += / -= with a histogram of another dtype, "
-        "* and / by python and numpy scalars, normalize, merge_bins, set_dtype with admissible and inadmissible targets; after every "
+        "* and / by python and numpy scalars, normalize, merge_bins, set_dtype with admissible and inadmissible targets, contents / squared errors assigned through the public setters in any element type, derived objects (accumulate, projection, T, selections, cumulative_frequencies); after every "
         "operation dtype == frequencies.dtype == errors2.dtype (world monitor), the dtype follows the rule for that operation, the "
         "values follow a float64 shadow (no truncation), set_dtype is accepted iff the reference rule admits it and a refusal changes "
         "nothing; non-trivial = history with >= 2 distinct content dtypes and >= 1 weighted fill or mixed-dtype arithmetic; "
